@@ -52,8 +52,10 @@ static void run_case(Case &c, Tape &t, Ctx &ctx) {
 		if (c.table_kind == 2) isal_update_histogram(data.data(), (int) data.size(), &h);
 		else {
 			uint64_t hs = t.bits64();
-			for (int i = 0; i < ISAL_DEF_LIT_LEN_SYMBOLS; i++) h.lit_len_histogram[i] = (mix64(hs + i) % 7 == 0) ? 0 : mix64(hs * 3 + i) % 1000;
-			for (int i = 0; i < ISAL_DEF_DIST_SYMBOLS; i++) h.dist_histogram[i] = mix64(hs * 5 + i) % 100;
+			// a table trained on something else: flat counts, or heavily skewed ones (code lengths up to the limit in all three alphabets)
+			bool skew = hs & 1;
+			for (int i = 0; i < ISAL_DEF_LIT_LEN_SYMBOLS; i++) h.lit_len_histogram[i] = (mix64(hs + i) % 7 == 0) ? 0 : skew ? 1ull << (mix64(hs * 3 + i) % 40) : mix64(hs * 3 + i) % 1000;
+			for (int i = 0; i < ISAL_DEF_DIST_SYMBOLS; i++) h.dist_histogram[i] = skew ? 1ull << (mix64(hs * 5 + i) % 36) : mix64(hs * 5 + i) % 100;
 		}
 		int rc = isal_create_hufftables(&g_custom, &h);
 		PBT_CHECK(rc == 0, "deflate:create_hufftables", "isal_create_hufftables returned %d", rc);
